@@ -65,4 +65,91 @@ Lemma gen_list_ContainsValue n l x F : (Z.of_nat (length l) < two63)%Z -> 70 <= 
 Proof.
   intros HL HF. unfold contains_value. fuel F 10. gocall. rewrite gen_list_GetIndex by lia. gogo; reflexivity.
 Qed.
+
+(* ---------- ContainsAny / ContainsAll: "for it.HasNext() { c = it.GetNext(); if v.GetIndex(c) > 0 { return true } }" ---------- *)
+(* variables: v values iterator candidate *)
+Definition cany_loop : stmt := nth 1 (fn_body fn_list__ContainsAny) SBreak.
+Definition cany_cond : option expr := Eval cbv in match cany_loop with SFor _ c _ _ => c | _ => None end.
+Definition cany_body : list stmt := Eval cbv in match cany_loop with SFor _ _ _ b => b | _ => [] end.
+Definition call_loop : stmt := nth 1 (fn_body fn_list__ContainsAll) SBreak.
+Definition call_cond : option expr := Eval cbv in match call_loop with SFor _ c _ _ => c | _ => None end.
+Definition call_body : list stmt := Eval cbv in match call_loop with SFor _ _ _ b => b | _ => [] end.
+Definition cs_env n l (sv : val A) it : env A :=
+  [(1%positive, lst_val n l); (2%positive, sv); (3%positive, it_rep A VNil it)].
+
+Section Cs.
+Variables (n : val A) (l : list A) (sv : val A).
+Hypothesis HL : (Z.of_nat (length l) < two63)%Z.
+Definition cany_run F it T := i_loop (interp_at A zero ext prog F) cany_cond None cany_body (cs_env n l sv it ++ T).
+Definition call_run F it T := i_loop (interp_at A zero ext prog F) call_cond None call_body (cs_env n l sv it ++ T).
+
+Ltac cs_enter F c b := rewrite loop_S; unfold loop_step; fuel F 40; unfold c, b, cs_env; gorun;
+  rewrite (gen_HasNext A zero ext) by lia.
+
+Lemma cany_sim : forall k vals s T F, k = length vals - s -> s <= length vals -> k + 110 <= F ->
+  exists en', cany_run F (mk_it A vals s) T =
+    ROk ((if existsb (contains_value eqb l) (skipn s vals) then SgReturn (VBool true) else SgNormal), en') /\
+    lookup 1%positive en' = Some (lst_val n l).
+Proof.
+  induction k as [|k IH]; intros vals s T F HK HS HF; (destruct F as [|F]; [lia|]); unfold cany_run.
+  - assert (s = length vals) by lia. subst s. rewrite skipn_all. cbn [existsb].
+    cs_enter F cany_cond cany_body. unfold has_next, mk_it, it_size. cbn [it_vals it_slot]. rewrite Nat.ltb_irrefl. gorun.
+    eexists; split; reflexivity.
+  - assert (HN : has_next (mk_it A vals s) = true) by (unfold has_next, mk_it, it_size; cbn; apply Nat.ltb_lt; lia).
+    assert (GN : get_next zero (mk_it A vals s) = (nth s vals zero, mk_it A vals (S s))) by (unfold get_next; rewrite HN; reflexivity).
+    rewrite (skipn_cons_nth A s vals zero) by lia. cbn [existsb]. unfold contains_value at 1.
+    cs_enter F cany_cond cany_body. rewrite HN. gorun.
+    rewrite (gen_GetNext A zero ext) by lia. rewrite GN. cbn [fst snd]. gorun. rewrite lookup_set_same. gorun.
+    rewrite gen_list_GetIndex by (assumption || lia). gorun.
+    destruct (Nat.ltb_spec 0 (get_index eqb l (nth s vals zero))) as [HG|HG]; cbn [orb]; gogo.
+    + eexists; split; reflexivity.
+    + destruct (IH vals (S s) (set 4%positive (VElem (nth s vals zero)) T) (40 + f)) as [en' [RUN LK]]; try lia.
+      unfold cany_run, cany_cond, cany_body, cs_env in RUN. cbn [Nat.add app] in RUN. exists en'. split; [exact RUN|exact LK].
+Qed.
+
+Lemma call_sim : forall k vals s T F, k = length vals - s -> s <= length vals -> k + 110 <= F ->
+  exists en', call_run F (mk_it A vals s) T =
+    ROk ((if forallb (contains_value eqb l) (skipn s vals) then SgNormal else SgReturn (VBool false)), en') /\
+    lookup 1%positive en' = Some (lst_val n l).
+Proof.
+  induction k as [|k IH]; intros vals s T F HK HS HF; (destruct F as [|F]; [lia|]); unfold call_run.
+  - assert (s = length vals) by lia. subst s. rewrite skipn_all. cbn [forallb].
+    cs_enter F call_cond call_body. unfold has_next, mk_it, it_size. cbn [it_vals it_slot]. rewrite Nat.ltb_irrefl. gorun.
+    eexists; split; reflexivity.
+  - assert (HN : has_next (mk_it A vals s) = true) by (unfold has_next, mk_it, it_size; cbn; apply Nat.ltb_lt; lia).
+    assert (GN : get_next zero (mk_it A vals s) = (nth s vals zero, mk_it A vals (S s))) by (unfold get_next; rewrite HN; reflexivity).
+    rewrite (skipn_cons_nth A s vals zero) by lia. cbn [forallb]. unfold contains_value at 1.
+    cs_enter F call_cond call_body. rewrite HN. gorun.
+    rewrite (gen_GetNext A zero ext) by lia. rewrite GN. cbn [fst snd]. gorun. rewrite lookup_set_same. gorun.
+    rewrite gen_list_GetIndex by (assumption || lia). gorun.
+    destruct (Nat.ltb_spec 0 (get_index eqb l (nth s vals zero))) as [HG|HG]; cbn [andb]; gogo.
+    + destruct (IH vals (S s) (set 4%positive (VElem (nth s vals zero)) T) (40 + f)) as [en' [RUN LK]]; try lia.
+      unfold call_run, call_cond, call_body, cs_env in RUN. cbn [Nat.add app] in RUN. exists en'. split; [exact RUN|exact LK].
+    + eexists; split; reflexivity.
+Qed.
+End Cs.
+
+Lemma gen_list_ContainsAny n l sv src F : seq_operand A zero ext sv src -> (Z.of_nat (length l) < two63)%Z ->
+  length src + 200 <= F ->
+  call_at F (lst_val n l) id_ContainsAny [sv] = ROk (VBool (contains_any eqb l src), lst_val n l).
+Proof.
+  intros OP HL HF. unfold contains_any. fuel F 60. gocall. op_iter OP. gorun.
+  match goal with |- context[i_loop (interp_at A zero ext prog ?FF) ?c ?p ?b ?en] =>
+    destruct (cany_sim n l sv HL (length src) src 0 [] FF ltac:(lia) ltac:(lia) ltac:(lia)) as [en' [RUN LK]];
+    change (i_loop (interp_at A zero ext prog FF) c p b en) with (cany_run n l sv FF (mk_it A src 0) [])
+  end.
+  rewrite RUN. cbn [skipn]. destruct (existsb (contains_value eqb l) src); gorun; rewrite LK; gorun; reflexivity.
+Qed.
+
+Lemma gen_list_ContainsAll n l sv src F : seq_operand A zero ext sv src -> (Z.of_nat (length l) < two63)%Z ->
+  length src + 200 <= F ->
+  call_at F (lst_val n l) id_ContainsAll [sv] = ROk (VBool (contains_all eqb l src), lst_val n l).
+Proof.
+  intros OP HL HF. unfold contains_all. fuel F 60. gocall. op_iter OP. gorun.
+  match goal with |- context[i_loop (interp_at A zero ext prog ?FF) ?c ?p ?b ?en] =>
+    destruct (call_sim n l sv HL (length src) src 0 [] FF ltac:(lia) ltac:(lia) ltac:(lia)) as [en' [RUN LK]];
+    change (i_loop (interp_at A zero ext prog FF) c p b en) with (call_run n l sv FF (mk_it A src 0) [])
+  end.
+  rewrite RUN. cbn [skipn]. destruct (forallb (contains_value eqb l) src); gorun; rewrite LK; gorun; reflexivity.
+Qed.
 End GenSearch.
